@@ -237,3 +237,20 @@ package cty
 //@   requires (wf_deep val)
 //@   panics[C02] (or (is_marked val) (not (is_string_ty (vty val))) (is_null val) (not (is_known val)))
 //@   ensures[C02] value: (= result (str_of val))
+//
+//@ func (cty.ValueRange).LengthLowerBound
+//@   tags C05 C01
+//@   requires (and (rng_ok (vr_ty r) (vr_raw r)) (wf_ty (vr_ty r)))
+//@   panics[C05] (and (not (is_dyn_ty (vr_ty r))) (not (is_coll_ty (vr_ty r))))
+//@   ensures[C05] value: (= result (ite (is_dyn_ty (vr_ty r)) 0 (rfn_len_lo (vr_raw r))))
+//
+//@ func (cty.ValueRange).LengthUpperBound
+//@   tags C05 C01
+//@   requires (and (rng_ok (vr_ty r) (vr_raw r)) (wf_ty (vr_ty r)))
+//@   panics[C05] (and (not (is_dyn_ty (vr_ty r))) (not (is_coll_ty (vr_ty r))))
+//@   ensures[C05] value: (= result (ite (is_dyn_ty (vr_ty r)) 9223372036854775807 (rfn_len_hi (vr_raw r))))
+//
+//@ func (cty.ValueRange).DefinitelyNotNull
+//@   tags C05 C01
+//@   requires (rng_ok (vr_ty r) (vr_raw r))
+//@   ensures[C05] value: (= result (and (not (= (vr_raw r) nil.Any)) (= (rfn_null (vr_raw r)) 70)))
